@@ -42,7 +42,8 @@ LEVEL_TEXT = ("The real request path (body reader under Content-Length and chunk
               "value, name/filename option, blank line, data, each byte group of the closing delimiter, duplicated and "
               "missing delimiter), for part data built from pieces of the delimiter aligned to the parser's scan stride by a "
               "symbolic pad (two free bytes at the positions that decide whether a partial delimiter goes on), for every "
-              "truncation offset and buffer size of the skeletons, for JSON skeletons with "
+              "truncation offset (also of the chunk-encoded stream, with and without chunk extensions, where a reader that does not "
+              "terminate is a failure) and buffer size of the skeletons, for JSON skeletons with "
               "1-3 symbolic bytes and for every urlencoded text up to the stated length. z3 decides every branch, so "
               "inside the bound each request is answered 2xx or 4xx with exactly one start_response, no traceback and no "
               "escaping exception, and every delivered field equals the data of a delimiter-terminated part of the sent "
@@ -97,7 +98,10 @@ ASSUMPTIONS = [
     "a WSGI server may return fewer bytes than asked from wsgi.input.read (PEP 3333): the windowing of the symbolic "
     "bytes is such a sequence of short reads",
     "under chunked framing the server hands the raw chunked stream to wsgi.input; the harness encodes the mutated "
-    "payload legally (the chunk grammar itself is C05's subject), plus raw truncation of the encoded stream",
+    "payload legally (the chunk grammar itself is C05's subject), plus raw truncation of the encoded stream with and "
+    "without chunk extensions",
+    "a reader that calls wsgi.input.read more than 200 times at EOF does not terminate: the stream stubs raise there, "
+    "so a hang is a failure (500 + traceback, or an escaping exception), not an inconclusive path",
     "a traceback on wsgi.errors is the witness of the catch-all 500 branch of Ombott._handle / Ombott.wsgi",
 ]
 OUTSIDE = [
@@ -465,32 +469,61 @@ def make_mp_any(n, kind, framing):
     return checked(q)
 
 
+CHUNK_EXT = b";sig=abc"       # a chunk extension (RFC 7230 4.1.1) put on every size line by the `-ext` framings
+
+
 def make_mp_truncate(tag, kind, framing):
     """concrete skeleton cut at every offset; buffer at the spool threshold of the whole skeleton; first read short"""
     boundary, body, _ = SKELETONS[tag]
     n = len(body)
-    raw_whole = b"".join(stubs_c12.chunked_pieces([body[:n // 2], body[n // 2:]]))
+    ext = CHUNK_EXT if "-ext" in framing else b""
+    raw_whole = b"".join(stubs_c12.chunked_pieces([body[:n // 2], body[n // 2:]], ext))
 
     def q(cut: int, t: int, f1: int):
         assume(n <= t <= n + 1 and 1 <= f1 <= 2)
-        assume(0 <= cut <= (len(raw_whole) if framing == "chunked-raw" else n))
+        assume(0 <= cut <= (len(raw_whole) if framing.endswith("-raw") else n))
         cut = int(cut)
         env = {"CONTENT_TYPE": MP_CTYPE % boundary.decode()}
-        if framing == "chunked":        # the payload is cut, then legally encoded in two chunks
-            sent = Sent(body[:cut], b"", b"")
-            raw = b"".join(stubs_c12.chunked_pieces([body[:cut // 2], body[cut // 2:cut]]))
-            env["HTTP_TRANSFER_ENCODING"] = "chunked"
-            stream = stubs.SymStream(len(raw), [f1], data=raw)
-        elif framing == "chunked-raw":  # the encoded stream itself is cut
+        if framing.endswith("-raw"):     # the encoded stream itself is cut (also inside size lines and extensions)
             sent = Sent(body, b"", b"")
             env["HTTP_TRANSFER_ENCODING"] = "chunked"
             stream = stubs.SymStream(cut, [f1], data=raw_whole)
+        elif framing.startswith("chunked"):   # the payload is cut, then legally encoded in two chunks
+            sent = Sent(body[:cut], b"", b"")
+            raw = b"".join(stubs_c12.chunked_pieces([body[:cut // 2], body[cut // 2:cut]], ext))
+            env["HTTP_TRANSFER_ENCODING"] = "chunked"
+            stream = stubs.SymStream(len(raw), [f1], data=raw)
         else:                            # the declared length is that of the whole skeleton, the stream ends early
             sent = Sent(body[:cut], b"", b"")
             env["CONTENT_LENGTH"] = str(n)
             stream = stubs.SymStream(cut, [f1], data=body)
         res = serve(kind, stream, t, env)
         return judge(kind, res, sent, boundary), observed(res)
+    return checked(q)
+
+
+CUT_TEXTS = {
+    # tag: (content type, body, handler)
+    "json": (JSON_CTYPE, b'{"a":[1,"b"]}', "json"),
+    "form": (FORM_CTYPE, b"a=1&b=%41+c", "forms"),
+    "raw": ("application/octet-stream", b"\x00\r\n0\r\n\r\n;", "body"),
+    "json-forms": (JSON_CTYPE, b'{"a":"1"}', "forms"),
+}
+
+
+def make_chunked_cut(tag, ext):
+    """a JSON / urlencoded / opaque body in two chunks (with or without chunk extensions), the encoded stream cut at
+    every offset: inside size lines, extensions, chunk data, the CRLFs and the last-chunk line"""
+    ctype, text, kind = CUT_TEXTS[tag]
+    n = len(text)
+    raw = b"".join(stubs_c12.chunked_pieces([text[:n // 2], text[n // 2:]], ext))
+    tmin = max(n, len(ext) + 4)
+
+    def q(cut: int, t: int):
+        assume(0 <= cut <= len(raw) and tmin <= t <= tmin + 1)
+        stream = stubs.SymStream(cut, [], data=raw)
+        res = serve(kind, stream, t, {"CONTENT_TYPE": ctype, "HTTP_TRANSFER_ENCODING": "chunked"})
+        return judge(kind if kind == "body" else "json", res, Sent(text, b"", b""), b""), observed(res)
     return checked(q)
 
 
@@ -713,15 +746,22 @@ def queries(tier):
             {"boundary": bd.decode(), "rest": rest, "handler": kind, "framing": framing})
 
     # ---- multipart: truncation, buffer sizes, declared length, arbitrary short bodies
-    trunc = [("text", "forms", "cl"), ("text", "forms", "chunked"), ("file", "files", "chunked-raw"), ("two", "files", "cl")]
+    trunc = [("text", "forms", "cl"), ("text", "forms", "chunked"), ("file", "files", "chunked-raw"), ("two", "files", "cl"),
+             ("text", "forms", "chunked-ext-raw")]
     if T:
         trunc += [("text", "forms", "chunked-raw"), ("file", "files", "cl"), ("file", "files", "chunked"),
-                  ("two", "files", "chunked"), ("two", "forms", "cl"), ("ctype", "files", "cl"), ("dup", "forms", "cl")]
+                  ("two", "files", "chunked"), ("two", "forms", "cl"), ("ctype", "files", "cl"), ("dup", "forms", "cl"),
+                  ("file", "files", "chunked-ext-raw"), ("two", "files", "chunked-ext-raw"), ("text", "forms", "chunked-ext"),
+                  ("two", "files", "chunked-ext")]
     for tag, kind, framing in trunc:
         body = SKELETONS[tag][1]
         how = {"cl": "Content-Length = %d declared, the stream ends after `cut` bytes" % len(body),
                "chunked": "the first `cut` bytes legally chunk-encoded (two chunks)",
-               "chunked-raw": "the chunk-encoded skeleton (two chunks), stream cut after `cut` bytes"}[framing]
+               "chunked-raw": "the chunk-encoded skeleton (two chunks), stream cut after `cut` bytes",
+               "chunked-ext": "the first `cut` bytes legally chunk-encoded (two chunks, extension %r on every size line)"
+               % CHUNK_EXT,
+               "chunked-ext-raw": "the chunk-encoded skeleton (two chunks, extension %r on every size line incl. the last "
+               "chunk), stream cut after `cut` bytes - also inside an extension" % CHUNK_EXT}[framing]
         add("mp/truncate/%s/%s/%s" % (tag, kind, framing), make_mp_truncate(tag, kind, framing),
             "multipart skeleton %r = %r truncated at every offset `cut` (symbolic): %s; buffer = max_memfile_size in "
             "[len, len+1], first read short by 1..2; handler reads request.%s" % (tag, body, how, kind),
@@ -744,6 +784,16 @@ def queries(tier):
         add("mp/any/%s/%s/len%d" % (kind, framing, n), make_mp_any(n, kind, framing),
             "every byte string of length <= %d as the body of a multipart request (boundary b), handler reads request.%s, "
             "%s framing" % (n, kind, framing), 150 if not T else 600, ["status-4xx", "status-2xx"], "mp/any")
+
+    # ---- chunked stream of a JSON / urlencoded / opaque body cut at every offset, with and without chunk extensions
+    for tag, ext in ([("json", CHUNK_EXT), ("form", CHUNK_EXT)] if not T else
+                     [(tag, ext) for tag in CUT_TEXTS for ext in (CHUNK_EXT, b"", b";x")]):
+        ctype, text, kind = CUT_TEXTS[tag]
+        add("chunked/cut/%s/%s" % (tag, "ext-" + ext[1:].decode() if ext else "plain"), make_chunked_cut(tag, ext),
+            "%s body %r in two chunks, extension %r on every size line, the encoded stream cut at every offset (symbolic; "
+            "inside size lines, extensions, data, CRLFs, last-chunk line); buffer two values from max(len, size line); "
+            "handler reads request.%s" % (ctype, text, ext, kind), 150 if not T else 400,
+            ["status-4xx", "status-2xx"], "chunked/cut", {"body": tag, "extension": ext.decode(), "handler": kind})
 
     # ---- multipart content types that do not yield a boundary
     for tag, ctype in MP_SPELLINGS.items():
